@@ -6,6 +6,7 @@ Tie: model normpath/abs_path/relpath vs the Rust functions on exhaustive
 strings over a path alphabet + random longer ones.
 Search: the property statements evaluated directly on the implementation."""
 import os
+import subprocess
 import random
 import common
 import pure
@@ -172,7 +173,7 @@ def symlink_part(r, t):
         os.symlink(os.path.join(P, "other"), os.path.join(P, "sub", "abs"))
         os.symlink("..", os.path.join(P, "sub", "deep", "up"))
         dirs = ["", "sub", "sub/deep", "other", "a b"]
-        files = [("", "q"), ("sub", "q"), ("sub/deep", "r"), ("other", "z"), ("a b", "q")]
+        files = [("", "q"), ("sub", "q"), ("sub/deep", "r"), ("other", "z"), ("a b", "q"), ("sub/deep/newdir", "n")]
         def spellings(cwd, d, f):
             absd = os.path.join(P, d) if d else P
             rel = os.path.relpath(absd, os.path.join(P, cwd) if cwd else P)
@@ -190,6 +191,12 @@ def symlink_part(r, t):
                 S += [os.path.join(P, "sub", "abs", f), os.path.relpath(os.path.join(P, "sub"), os.path.join(P, cwd) if cwd else P) + "/abs/" + f]
             if d == "":
                 S += [os.path.join(P, "sub", "..", f), os.path.join(P, "link", "..", "..", f)]
+            if d == "sub/deep/newdir":
+                # the directory does not exist yet (the .do will create it): the key must already be the physical one
+                S = [os.path.join(absd, f), os.path.join(rel, f), os.path.join(P, "link", "newdir", f),
+                     os.path.relpath(os.path.join(P, "link"), os.path.join(P, cwd) if cwd else P) + "/newdir/" + f,
+                     os.path.join(P, "link", "up", "deep", "newdir", f), os.path.join(P, "link", "newdir", "more", "..", f),
+                     os.path.join(P, "link", "nope", "..", "newdir", f)]
             return S
         hdir = common.build_harness()
         impl = os.path.join(hdir, "pharness")
@@ -214,6 +221,14 @@ def symlink_part(r, t):
                     dn = pth[:pth.rfind("/") + 1]
                     if os.path.isdir(dn):
                         tbl[dn] = os.path.realpath(dn)
+                    else:
+                        # NotFound: the implementation resolves the longest prefix that exists
+                        comps = [c_ for c_ in dn.split("/") if c_ not in ("", ".")]
+                        for j in range(len(comps) - 1, -1, -1):
+                            key = "/" + "/".join(comps[:j])
+                            if os.path.exists(key):
+                                tbl[key] = os.path.realpath(key)
+                                break
                 mlines.append("relc %s %s %s %s" % (hexs(acwd), hexs(sp), hexs(base), " ".join("%s %s" % (hexs(k), hexs(v)) for k, v in tbl.items())))
             mout = common.run_lines(model, mlines, shards=1)
             for ((d, f), sp), io, mo, ml in zip(cases, iout, mout, mlines):
@@ -231,7 +246,66 @@ def symlink_part(r, t):
         shutil.rmtree(root, ignore_errors=True)
     out["violations"] = out["violations"][:5]
     out["disagreements"] = out["disagreements"][:5]
+    try:
+        out["violations"] += real_commands_part()
+        out["cases"] += 2
+    except subprocess.TimeoutExpired:
+        out["violations"].append({"oracle": "real commands part", "what": "timeout"})
     return out
+
+
+def real_commands_part():
+    """Two shapes on the real binaries, each in a fresh project:
+    (a) the first command is run from a sub-directory on a `../` target, the second from the top:
+        one state database, one record, the script runs once;
+    (b) a target below a symlinked directory in a sub-directory that the script creates:
+        after the rule changes it is rebuilt, and it has one record."""
+    import shutil, subprocess, tempfile
+    bindir = common.build_redo(True)
+    bad = []
+    env = dict(common.ENV)
+    env["PATH"] = bindir + ":" + env.get("PATH", os.environ.get("PATH", ""))
+    for k in list(env):
+        if k.startswith("REDO") or k == "MAKEFLAGS":
+            del env[k]
+    run = lambda cwd, *a: subprocess.run(list(a), cwd=cwd, env=env, stdout=subprocess.PIPE, stderr=subprocess.PIPE, timeout=60)
+    # (a)
+    root = os.path.realpath(tempfile.mkdtemp(prefix="c15a-", dir="/var/tmp"))
+    try:
+        os.mkdir(os.path.join(root, "sub"))
+        open(os.path.join(root, "x.do"), "w").write('echo run >> "%s/trace"\necho x\n' % root)
+        r1 = run(os.path.join(root, "sub"), "redo-ifchange", "../x")
+        r2 = run(root, "redo-ifchange", "x")
+        dbs = [os.path.join(dp, f) for dp, _, fs in os.walk(root) for f in fs if f == "db.sqlite3"]
+        runs = len(open(os.path.join(root, "trace")).read().split()) if os.path.exists(os.path.join(root, "trace")) else 0
+        tg = run(root, "redo-targets").stdout.decode().split()
+        if r1.returncode or r2.returncode or len(dbs) != 1 or runs != 1 or tg != ["x"]:
+            bad.append({"oracle": "one file, one record", "scenario": "fresh project: (cd sub && redo-ifchange ../x); then redo-ifchange x from the top",
+                        "state_databases": [os.path.relpath(d, root) for d in dbs], "x.do_ran": runs, "redo-targets from the top": tg,
+                        "exit": [r1.returncode, r2.returncode]})
+    finally:
+        shutil.rmtree(root, ignore_errors=True)
+    # (b)
+    root = os.path.realpath(tempfile.mkdtemp(prefix="c15b-", dir="/var/tmp"))
+    try:
+        os.mkdir(os.path.join(root, ".redo"))
+        os.mkdir(os.path.join(root, "real"))
+        os.symlink("real", os.path.join(root, "link"))
+        rule = 'mkdir -p "$(dirname "$1")"\necho %s >$3\n'
+        open(os.path.join(root, "default.out.do"), "w").write(rule % "v1")
+        r1 = run(root, "redo-ifchange", "link/newdir/x.out")
+        open(os.path.join(root, "default.out.do"), "w").write(rule % "v2")
+        r2 = run(root, "redo-ifchange", "link/newdir/x.out")
+        r3 = run(root, "redo-ifchange", "real/newdir/x.out")
+        content = open(os.path.join(root, "real", "newdir", "x.out")).read() if os.path.exists(os.path.join(root, "real", "newdir", "x.out")) else None
+        tg = run(root, "redo-targets").stdout.decode().split()
+        sr = run(root, "redo-sources").stdout.decode().split()
+        if r1.returncode or r2.returncode or r3.returncode or content != "v2\n" or tg != ["real/newdir/x.out"] or "real/newdir/x.out" in sr:
+            bad.append({"oracle": "one file, one record", "scenario": "link -> real; default.out.do creates the directory; redo-ifchange link/newdir/x.out; rule edited; again",
+                        "content": content, "expected": "v2\n", "redo-targets": tg, "redo-sources": sr, "exit": [r1.returncode, r2.returncode, r3.returncode]})
+    finally:
+        shutil.rmtree(root, ignore_errors=True)
+    return bad
 
 
 def replay(path):
